@@ -7,7 +7,7 @@ The non-filter statements run once; then, for each input packet in order, every 
 in source order with NP = the packet's 1-based index and PL, WL, TSS, TSU = its captured
 length, wire length and timestamp; each action-less filter whose pattern is `true` selects the
 packet once; an `end` filter runs exactly once afterwards with NP = the number of packets
-read.  The result is the list of selected packet indices (with multiplicity, in order) and
+read (a program whose `end` filter reads PL, WL, TSS or TSU is outside the specification: `unc`).  The result is the list of selected packet indices (with multiplicity, in order) and
 what the program printed.  Packets are abstract here (their four header numbers); programs
 that read or assign packet fields are outside this specification (`unc`).
 -/
@@ -30,7 +30,9 @@ def setVars (st : St) (np : Val) (p : Option Pkt) : St :=
   let i (n : Nat) : Val := .int (Int64.ofNat n)
   match p with
   | some p => { st with bvars := [("NP", np), ("PL", i p.caplen), ("WL", i p.wirelen), ("TSS", i p.tsSec), ("TSU", i p.tsUsec)] }
-  | none => { st with bvars := [("NP", np), ("PL", .null), ("WL", .null), ("TSS", i 0), ("TSU", i 0)] }
+  -- the `end` filter: the statement fixes NP only; there is no current packet, and the documents do not say
+  -- what PL, WL, TSS, TSU hold then — they are left unset, so that reading them is `unc` (`Ref.evalE`, `.ident`)
+  | none => { st with bvars := [("NP", np)] }
 
 def fuel : Nat := 5000
 
